@@ -211,18 +211,43 @@ func unhex(s string) string {
 	return string(b)
 }
 
-func optPair(l, r string, err error) string {
-	if err != nil {
-		return vh.None()
-	}
-	return vh.Some(vh.Pair(vh.HexS(l), vh.HexS(r)))
+// strtab shares byte-string literals inside one case term: every distinct string
+// is bound once by a let (elaborating string literals dominates the cost of a
+// case file, and a case repeats the same few strings many times).
+type strtab struct {
+	names map[string]string
+	lets  []string
 }
 
-func optStr(s string, err error) string {
+func (t *strtab) s(v string) string {
+	if n, ok := t.names[v]; ok {
+		return n
+	}
+	if t.names == nil {
+		t.names = map[string]string{}
+	}
+	n := fmt.Sprintf("s%d", len(t.names))
+	t.names[v] = n
+	t.lets = append(t.lets, "let "+n+" := "+vh.HexS(v)+" in ")
+	return n
+}
+
+func (t *strtab) wrap(term string) string {
+	return "(" + strings.Join(t.lets, "") + term + ")"
+}
+
+func (t *strtab) optPair(l, r string, err error) string {
 	if err != nil {
 		return vh.None()
 	}
-	return vh.Some(vh.HexS(s))
+	return vh.Some(vh.Pair(t.s(l), t.s(r)))
+}
+
+func (t *strtab) optStr(s string, err error) string {
+	if err != nil {
+		return vh.None()
+	}
+	return vh.Some(t.s(s))
 }
 
 func obsStr(s string, err error) any {
@@ -279,21 +304,22 @@ func run(in input) vh.Result {
 	if nACerr != nil {
 		nk = "norm-err"
 	}
+	var t strtab
 	xk := "plain"
 	if isX {
 		xk = "cmd"
 	}
 	return vh.Result{
-		Coq: vh.App("C35Case",
-			vh.HexS(a), vh.HexS(b), vh.HexS(c), vh.HexS(x),
+		Coq: t.wrap(vh.App("C35Case",
+			t.s(a), t.s(b), t.s(c), t.s(x),
 			vh.N(uint64(crcA)), vh.N(uint64(crcB)),
-			vh.HexS(encAB), vh.HexS(encBA),
-			optPair(dl, dr, derr), optPair(cl, cr, cerr),
-			optStr(nAB, nABerr), optStr(nBA, nBAerr), optStr(nAE, nAEerr), optStr(nBE, nBEerr),
-			optStr(nAC, nACerr), optStr(nAC2, nAC2err),
-			vh.B(isX), vh.HexS(toX), vh.HexS(toToX), vh.B(isToX),
-			vh.Pair(vh.HexS(fromX), vh.B(fromXok)), vh.Pair(vh.HexS(fromToX), vh.B(fromToXok)),
-			vh.HexS(agEnc), optPair(al, ar, aerr), optPair(acl, acr, acerr)),
+			t.s(encAB), t.s(encBA),
+			t.optPair(dl, dr, derr), t.optPair(cl, cr, cerr),
+			t.optStr(nAB, nABerr), t.optStr(nBA, nBAerr), t.optStr(nAE, nAEerr), t.optStr(nBE, nBEerr),
+			t.optStr(nAC, nACerr), t.optStr(nAC2, nAC2err),
+			vh.B(isX), t.s(toX), t.s(toToX), vh.B(isToX),
+			vh.Pair(t.s(fromX), vh.B(fromXok)), vh.Pair(t.s(fromToX), vh.B(fromToXok)),
+			t.s(agEnc), t.optPair(al, ar, aerr), t.optPair(acl, acr, acerr))),
 		Obs: map[string]any{
 			"crc_a": crcA, "crc_b": crcB,
 			"enc_ab": hex.EncodeToString([]byte(encAB)), "enc_ba": hex.EncodeToString([]byte(encBA)),
